@@ -13,4 +13,5 @@ for f in $FILES; do printf '%s"/repo/%s":"%s/src/%s"' "$sep" "$f" "$D" "$f" >> "
 printf '}}\n' >> "$D/overlay.json"
 cd "$(dirname "$0")/.."
 VERIF_OVERLAY="$D/overlay.json" python3 bin/check.py "$PROP" "$TIER" || true
-rm -rf .work/bin-*
+# remove only this overlay's private binaries (parallel runs keep theirs)
+rm -rf ".work/bin-$(sha1sum "$D/overlay.json" | cut -c1-10)"
